@@ -79,6 +79,8 @@ pub struct Names {
     pub args: Vec<String>,
     pub files: Vec<String>,
     pub lines: Vec<u64>,
+    /// coherent (class, method, line) triples that resolve in the mapping
+    pub hot: Vec<(String, String, u64)>,
 }
 
 pub const PLATFORM_CLASSES: &[&str] = &[
@@ -98,12 +100,26 @@ pub fn names_of(ast: &MapAst) -> Names {
         }
     };
     let mut lines: Vec<u128> = (0..=66).collect();
+    let mut cur_class: Option<&str> = None;
+    let mut hot: Vec<(String, String, u64)> = vec![];
     for it in &ast.items {
         match it {
             Item::Class { obf, .. } => {
                 push(&mut n.classes, obf);
+                cur_class = Some(obf.as_str());
             }
             Item::Method(m) => {
+                if let Some(c) = cur_class {
+                    if hot.len() < 200 {
+                        let l = match m.usable() {
+                            Some((s, e)) if s <= e => s + (e - s) / 2,
+                            _ => 7,
+                        };
+                        if l <= u64::MAX as u128 {
+                            hot.push((c.to_string(), m.obf.clone(), l as u64));
+                        }
+                    }
+                }
                 push(&mut n.methods, &m.obf);
                 push(&mut n.args, &m.args);
                 for v in [m.start, m.end].into_iter().flatten() {
@@ -155,6 +171,7 @@ pub fn names_of(ast: &MapAst) -> Names {
     lines.sort();
     lines.dedup();
     n.lines = lines.into_iter().filter(|v| *v <= u64::MAX as u128).map(|v| v as u64).collect();
+    n.hot = hot;
     n
 }
 
@@ -196,6 +213,18 @@ impl<'a> TraceGen<'a> {
     /// A frame whose class/method/file are "canonical": printable and
     /// re-parsable (class non-empty, method dot-free, file colon-free).
     pub fn frame(&self, rng: &mut Rng, with_file: bool) -> TFrame {
+        if !self.names.hot.is_empty() && rng.chance(3, 5) {
+            let (c, m, l) = rng.pick(&self.names.hot).clone();
+            let ok = |s: &str| !s.is_empty() && !s.contains('\0') && !s.contains('(') && !s.contains(' ');
+            if ok(&c) && ok(&m) && !m.contains('.') {
+                let file = if with_file || rng.chance(2, 3) {
+                    Some(rng.pick(&["SourceFile", "Main.java", "a b.kt", "<unknown>", "Ünï.kt"]).to_string())
+                } else {
+                    None
+                };
+                return TFrame { class: c, method: m, file, line: l };
+            }
+        }
         let class = {
             let c = if rng.chance(4, 5) { rng.pick(&self.names.classes).clone() } else { "org.unmapped.Type".to_string() };
             if c.is_empty() || c.contains('\0') || c.contains('(') || c.contains(' ') {
